@@ -46,7 +46,25 @@ func c20GenEntry(w *simrt.Stream, i int) c20Entry {
 	}
 	uid := int64([]int{0, 1, 42, 1 << 40}[w.Draw(4)])
 	item := int64([]int{0, 7, 99999}[w.Draw(3)])
-	switch w.Draw(4) {
+	// proto3 JSON: a 64-bit integer may be written as a number or as a string, a field by its proto name or its
+	// lowerCamelCase JSON name
+	num := func(v int64) interface{} {
+		if w.Draw(4) == 0 {
+			return fmt.Sprint(v)
+		}
+		return v
+	}
+	key := func(protoName, jsonName string) string {
+		if w.Draw(4) == 0 {
+			return jsonName
+		}
+		return protoName
+	}
+	switch w.Draw(5) {
+	case 4:
+		e.Method = "Stats"
+		e.Payload = map[string]interface{}{}
+		e.Fields = "stats"
 	case 0:
 		e.Method = "Hello"
 		e.Payload = map[string]interface{}{"name": name}
@@ -64,12 +82,12 @@ func c20GenEntry(w *simrt.Stream, i int) c20Entry {
 		e.Method = "List"
 		e.Payload = map[string]interface{}{"token": name}
 		if uid != 0 || w.Draw(2) == 0 {
-			e.Payload["user_id"] = uid
+			e.Payload[key("user_id", "userId")] = num(uid)
 		}
 		e.Fields = fmt.Sprintf("token=%q user_id=%d", name, uid)
 	default:
 		e.Method = "Order"
-		e.Payload = map[string]interface{}{"token": name, "user_id": uid, "item_id": item}
+		e.Payload = map[string]interface{}{"token": name, key("user_id", "userId"): num(uid), key("item_id", "itemId"): num(item)}
 		e.Fields = fmt.Sprintf("token=%q user_id=%d item_id=%d", name, uid, item)
 	}
 	e.Call = "target.TargetService." + e.Method
@@ -84,6 +102,8 @@ func c20GenEntry(w *simrt.Stream, i int) c20Entry {
 	case 1:
 		e.Good, e.BadKind = false, "ill-typed-payload"
 		switch e.Method {
+		case "Stats":
+			e.Payload = map[string]interface{}{"anything": []interface{}{1}}
 		case "Hello":
 			e.Payload = map[string]interface{}{"name": map[string]interface{}{"nested": 1}}
 		case "Auth":
